@@ -262,6 +262,40 @@ class Elab:
         return None
 
 
+class Design:
+    """every netlist of the world that has a top instance, elaborated; the valid references are those below the
+    top instance of a netlist whose library holds the top instance's definition (`rooted`). The occurrences of an
+    element are taken over ALL of them: where an element sits decides, not what it references."""
+
+    def __init__(self, w):
+        self.w = w
+        self.elabs = []       # rooted: their references are valid
+        self.by_netlist = []  # (creation index of the netlist, Elab) for every netlist with a top instance
+        for i, o in enumerate(w.objs):
+            if isinstance(o, sdn.ir.Netlist) and o.top_instance is not None:
+                e = Elab(w, o)
+                self.by_netlist.append((i, e))
+                if e.rooted:
+                    self.elabs.append(e)
+
+    def occurrences(self, item):
+        out = []
+        for e in self.elabs:
+            out += e.occurrences(item)
+        return sorted(out)
+
+    def contents_from(self, kind, hrefs, recursive):
+        out = set()
+        if kind == 'inst':
+            return []
+        for h in hrefs:
+            for e in self.elabs:
+                if h in e.items_at:
+                    out.update(e.expected_below(kind, h, recursive))
+                    break
+        return sorted(out)
+
+
 def _scalar(bundle, items):
     # Bundle.is_scalar semantics re-stated: several items are never a scalar
     return False if len(items) > 1 else bool(bundle._is_scalar)
